@@ -4,6 +4,7 @@ package main
 // copy the path), so forking a state shares everything.
 
 import (
+	"os"
 	"fmt"
 	"go/types"
 
@@ -198,6 +199,9 @@ func (e *Exec) zero(t types.Type) Value {
 			return z
 		}
 		ev := e.zero(u.Elem())
+		if u.Len() > 1<<16 && os.Getenv("GOSMT_DEBUG") != "" {
+			fmt.Fprintf(os.Stderr, "zero: big array %v at %s\n", t, e.posStr())
+		}
 		el := make([]Value, u.Len())
 		for i := range el {
 			el[i] = ev
